@@ -720,13 +720,17 @@ func fix128BigIntToFix64(
 	bigInt *big.Int,
 ) Fix64Value {
 
-	if bigInt.Cmp(fixedpoint.Fix64TypeMaxScaledTo128) > 0 {
+	// Drop the excess fractional digits first (truncating toward zero),
+	// then check the range of the result, like the conversions to integer types
+	// and the conversions with a rounding rule do.
+	bigInt = new(big.Int).Quo(bigInt, fixedpoint.Fix64ToFix128FactorAsBigInt)
+
+	if bigInt.Cmp(fixedpoint.Fix64TypeMax) > 0 {
 		panic(&OverflowError{})
-	} else if bigInt.Cmp(fixedpoint.Fix64TypeMinScaledTo128) < 0 {
+	} else if bigInt.Cmp(fixedpoint.Fix64TypeMin) < 0 {
 		panic(&UnderflowError{})
 	}
 
-	bigInt = bigInt.Quo(bigInt, fixedpoint.Fix64ToFix128FactorAsBigInt)
 	return NewFix64Value(
 		memoryGauge,
 		func() int64 {
